@@ -362,19 +362,27 @@ impl Env<'_> {
     }
 
     /// apply a view selection to the model; false = case is non-deciding
-    fn select(&mut self, m: &mut Model, rows: Sel, cols: Sel) -> bool {
+    fn select(&mut self, m: &mut Model, rows: Sel, cols: Sel) -> Result<bool, Fail> {
         if !rows.representable() || !cols.representable() {
             self.leave_domain("nondeciding.selector-not-representable");
-            return false;
+            return Ok(false);
         }
         if !m.is_empty() {
-            // C07 is about the window arithmetic; whether the selector itself resolves per
-            // Python semantics is C08 and must not be reported here
-            if rows.view_bounds(m.h) != rows.reference(m.h)
-                || cols.view_bounds(m.w) != cols.reference(m.w)
-            {
-                self.leave_domain("nondeciding.selector-resolves-differently(C08)");
-                return false;
+            // The window a sub-view denotes is the one the same selectors pick on a plain matrix.
+            // (While the repository's selector defects were open this was left to C08 alone; they
+            // are repaired, and a view built from a mis-resolved selector is the wrong window.)
+            for (axis, sel, n) in [("rows", rows, m.h), ("cols", cols, m.w)] {
+                let (got, want) = (sel.view_bounds(n), sel.reference(n));
+                if got != want {
+                    return Err(Fail::new(
+                        format!("view:selector-window:{:?}", sel.form),
+                        format!(
+                            "{axis} selector {} ({:?}) on an axis of {n} resolves to {got:?}, the matrix slice is {want:?}",
+                            sel.render(),
+                            sel.ty
+                        ),
+                    ));
+                }
             }
         }
         for sel in [rows, cols] {
@@ -392,7 +400,7 @@ impl Env<'_> {
         }
         m.view(rows, cols);
         self.ctx.feat_if(m.is_empty(), "view.selected-nothing");
-        true
+        Ok(true)
     }
 }
 
@@ -1034,14 +1042,14 @@ fn chain_ref(s: &DynS<'_>, ops: &[Op], m: &mut Model, env: &mut Env) -> Result<(
     env.ctx.feat(op.name());
     match *op {
         Op::View { rows, cols } => {
-            if !env.select(m, rows, cols) {
+            if !env.select(m, rows, cols)? {
                 return Ok(());
             }
             let v = Surface::view(&s, rows, cols);
             chain_ref(&v, rest, m, env)
         }
         Op::ViewOwned { rows, cols } => {
-            if !env.select(m, rows, cols) {
+            if !env.select(m, rows, cols)? {
                 return Ok(());
             }
             let v = Surface::view_owned(s, rows, cols);
@@ -1081,21 +1089,21 @@ fn chain_mut(s: &mut DynM<'_>, ops: &[Op], m: &mut Model, env: &mut Env) -> Resu
     env.ctx.feat(op.name());
     match *op {
         Op::View { rows, cols } => {
-            if !env.select(m, rows, cols) {
+            if !env.select(m, rows, cols)? {
                 return Ok(());
             }
             let v = Surface::view(&s, rows, cols);
             chain_ref(&v, rest, m, env)
         }
         Op::ViewMut { rows, cols } => {
-            if !env.select(m, rows, cols) {
+            if !env.select(m, rows, cols)? {
                 return Ok(());
             }
             let mut v = SurfaceMut::view_mut(&mut s, rows, cols);
             chain_mut(&mut v, rest, m, env)
         }
         Op::ViewOwned { rows, cols } => {
-            if !env.select(m, rows, cols) {
+            if !env.select(m, rows, cols)? {
                 return Ok(());
             }
             let mut v = Surface::view_owned(s, rows, cols);
@@ -1143,7 +1151,7 @@ fn by_value_0<S: SurfaceMut<Item = u32>>(
     match ops.split_first() {
         Some((Op::ViewOwned { rows, cols }, rest)) => {
             env.ctx.feat("op.view_owned");
-            if !env.select(m, *rows, *cols) {
+            if !env.select(m, *rows, *cols)? {
                 return Ok(());
             }
             by_value_1(s.view_owned(*rows, *cols), rest, m, env)
@@ -1167,7 +1175,7 @@ fn by_value_1<S: SurfaceMut<Item = u32>>(
     match ops.split_first() {
         Some((Op::ViewOwned { rows, cols }, rest)) => {
             env.ctx.feat("op.view_owned");
-            if !env.select(m, *rows, *cols) {
+            if !env.select(m, *rows, *cols)? {
                 return Ok(());
             }
             env.ctx.feat("nested-owned-view-by-value");
